@@ -58,8 +58,10 @@ pub const BASE_TYPES: &[&str] = &[
     "A_ASCIISTRING", "A_UNICODE2STRING", "A_BYTEFIELD", "A_BITFIELD",
 ];
 const TEXTS: &[&str] = &["x", "speed: ", "a&b", "<tag>", "é€", " lead", "q\"uote", "1 2", "it's", "tab\there", "𝄞"];
-const APPS: &[&str] = &["APP", "DR", "A", "éé"];
-const CTXS: &[&str] = &["CTX1", "C2", "TIME"];
+// pools chosen so that different (context, application) pairs have equal concatenations
+// ("AB"+"C" == "A"+"BC") and ids differ only in trailing blanks
+const APPS: &[&str] = &["APP", "DR", "A", "éé", "BC", "C", "A "];
+const CTXS: &[&str] = &["CTX1", "C2", "TIME", "A", "AB", "AB "];
 
 fn ti(kind: TypeInfoKind, coding: StringCoding) -> TypeInfo {
     TypeInfo {
@@ -132,6 +134,18 @@ pub fn gen_model(r: &mut Rng, small: bool) -> Model {
             )
         })
         .collect();
+    let mut signals = signals;
+    if ncod > 0 && r.chance(1, 6) {
+        // a SIGNAL element that re-declares a standard signal name with some coding: references to
+        // that name keep their standard meaning
+        let n = r.range(1, 2);
+        for _ in 0..n {
+            let name = r.pick(STD_SIGNALS).to_string();
+            if name != "S_NOPE" && !signals.iter().any(|(id, _)| *id == name) {
+                signals.push((name, codings[r.usize_below(ncod)].0.clone()));
+            }
+        }
+    }
     let npdu = r.below(if small { 4 } else { 31 }) as usize;
     let mut pdus: Vec<Pdu> = vec![];
     for i in 0..npdu {
@@ -377,6 +391,33 @@ fn name_noise(r: &mut Rng, ho: &str) -> Vec<String> {
     v
 }
 
+/// extra attributes the schema allows next to ID / ID-REF (object identifiers, schema types);
+/// their names end in the same letters as the attributes the loader looks for
+fn attr_noise(r: &mut Rng, for_ref: bool) -> (String, String) {
+    let pick = |r: &mut Rng| -> String {
+        if for_ref {
+            match r.below(3) {
+                0 => format!("OID-REF=\"oid-{}\" ", r.below(1000)),
+                1 => "xsi:type=\"fx:REF\" ".to_string(),
+                _ => format!("DEST-ID-REF=\"x{}\" ", r.below(9)),
+            }
+        } else {
+            match r.below(4) {
+                0 => format!("OID=\"{:08x}-oid\" ", r.u32()),
+                1 => "xsi:type=\"fx:T\" ".to_string(),
+                2 => format!("UUID=\"{:08x}\" ", r.u32()),
+                _ => format!("GID=\"g{}\" ", r.below(99)),
+            }
+        }
+    };
+    match r.below(8) {
+        0 => (pick(r), String::new()),
+        1 => (String::new(), format!(" {}", pick(r).trim_end())),
+        2 => (pick(r), format!(" {}", pick(r).trim_end())),
+        _ => (String::new(), String::new()),
+    }
+}
+
 /// an element of a section the loader does not use (channels, gateways, function descriptions)
 fn unrelated_section(r: &mut Rng, fx: &str, ho: &str) -> String {
     match r.below(3) {
@@ -447,7 +488,10 @@ pub fn emit_file(r: &mut Rng, els: &[El]) -> String {
                         let mut k2 = vec![
                             format!("<{fx}SEQUENCE-NUMBER>{}</{fx}SEQUENCE-NUMBER>", q),
                             if r.chance(1, 2) {
-                                format!("<{fx}SIGNAL-REF {attr_prefix}ID-REF=\"{}\"/>", n)
+                                {
+                                    let (ra, rb) = attr_noise(r, true);
+                                    format!("<{fx}SIGNAL-REF {ra}{attr_prefix}ID-REF=\"{}\"{rb}/>", n)
+                                }
                             } else {
                                 format!("<{fx}SIGNAL-REF ID-REF=\"{}\"></{fx}SIGNAL-REF>", n)
                             },
@@ -459,13 +503,15 @@ pub fn emit_file(r: &mut Rng, els: &[El]) -> String {
                             k2.push(format!("<{fx}IS-HIGH-LOW-BYTE-ORDER>false</{fx}IS-HIGH-LOW-BYTE-ORDER>"));
                         }
                         r.shuffle(&mut k2);
-                        s += &format!("<{fx}SIGNAL-INSTANCE {attr_prefix}ID=\"si{}\">{}</{fx}SIGNAL-INSTANCE>{nl}", k, k2.concat());
+                        let (na, nb) = attr_noise(r, false);
+                        s += &format!("<{fx}SIGNAL-INSTANCE {na}{attr_prefix}ID=\"si{}\"{nb}>{}</{fx}SIGNAL-INSTANCE>{nl}", k, k2.concat());
                     }
                     s += &format!("</{fx}SIGNAL-INSTANCES>");
                     kids.push(s);
                 }
                 r.shuffle(&mut kids);
-                x += &format!("<{fx}PDU {attr_prefix}ID=\"{}\">{nl}{}{nl}</{fx}PDU>{nl}", esc_attr(&p.id), kids.join(nl));
+                let (na, nb) = attr_noise(r, false);
+                x += &format!("<{fx}PDU {na}{attr_prefix}ID=\"{}\"{nb}>{nl}{}{nl}</{fx}PDU>{nl}", esc_attr(&p.id), kids.join(nl));
             }
             El::F(fr) => {
                 let mut kids = vec![format!("<{ho}SHORT-NAME>{}</{ho}SHORT-NAME>", esc_text(r, &fr.name)), format!("<{fx}BYTE-LENGTH>{}</{fx}BYTE-LENGTH>", r.below(99)), format!("<{fx}FRAME-TYPE>OTHER</{fx}FRAME-TYPE>")];
@@ -474,7 +520,10 @@ pub fn emit_file(r: &mut Rng, els: &[El]) -> String {
                     let mut k2 = vec![
                         format!("<{fx}SEQUENCE-NUMBER>{}</{fx}SEQUENCE-NUMBER>", q),
                         if r.chance(1, 2) {
-                            format!("<{fx}PDU-REF ID-REF=\"{}\"/>", n)
+                            {
+                                let (ra, rb) = attr_noise(r, true);
+                                format!("<{fx}PDU-REF {ra}ID-REF=\"{}\"{rb}/>", n)
+                            }
                         } else {
                             format!("<{fx}PDU-REF {attr_prefix}ID-REF=\"{}\"></{fx}PDU-REF>", n)
                         },
@@ -486,7 +535,8 @@ pub fn emit_file(r: &mut Rng, els: &[El]) -> String {
                         k2.push(format!("<{fx}IS-HIGH-LOW-BYTE-ORDER>true</{fx}IS-HIGH-LOW-BYTE-ORDER>"));
                     }
                     r.shuffle(&mut k2);
-                    s += &format!("<{fx}PDU-INSTANCE ID=\"pi{}\">{}</{fx}PDU-INSTANCE>{nl}", k, k2.concat());
+                    let (na, nb) = attr_noise(r, false);
+                    s += &format!("<{fx}PDU-INSTANCE {na}ID=\"pi{}\"{nb}>{}</{fx}PDU-INSTANCE>{nl}", k, k2.concat());
                 }
                 s += &format!("</{fx}PDU-INSTANCES>");
                 if !fr.pdus.is_empty() || r.chance(1, 2) {
@@ -513,15 +563,18 @@ pub fn emit_file(r: &mut Rng, els: &[El]) -> String {
                 }
                 kids.extend(name_noise(r, ho));
                 r.shuffle(&mut kids);
-                x += &format!("<{fx}FRAME ID=\"{}\">{nl}{}{nl}</{fx}FRAME>{nl}", esc_attr(&fr.id), kids.join(nl));
+                let (na, nb) = attr_noise(r, false);
+                x += &format!("<{fx}FRAME {na}ID=\"{}\"{nb}>{nl}{}{nl}</{fx}FRAME>{nl}", esc_attr(&fr.id), kids.join(nl));
             }
             El::S(id, c) => {
-                let mut kids = vec![format!("<{ho}SHORT-NAME>{}</{ho}SHORT-NAME>", id), format!("<{fx}CODING-REF ID-REF=\"{}\"/>", c)];
+                let (ra, rb) = attr_noise(r, true);
+                let mut kids = vec![format!("<{ho}SHORT-NAME>{}</{ho}SHORT-NAME>", id), format!("<{fx}CODING-REF {ra}ID-REF=\"{}\"{rb}/>", c)];
                 kids.extend(name_noise(r, ho));
                 if r.chance(1, 2) {
                     r.shuffle(&mut kids);
                 }
-                x += &format!("<{fx}SIGNAL ID=\"{}\">{}</{fx}SIGNAL>{nl}", id, kids.concat());
+                let (na, nb) = attr_noise(r, false);
+                x += &format!("<{fx}SIGNAL {na}ID=\"{}\"{nb}>{}</{fx}SIGNAL>{nl}", id, kids.concat());
             }
             El::C(id, b) => {
                 // a PHYSICAL-TYPE with its own (different) base data type: only the CODED-TYPE counts
@@ -557,6 +610,9 @@ pub const DAMAGE_OPS: &[&str] = &[
     "invalid_utf8",
     "bom_or_cdata_or_entity",
     "duplicate_region",
+    "alias_cycle",
+    "nest_element",
+    "non_ascii_number",
 ];
 
 /// byte ranges of all tags `<...>` (document produced by the emitter: no '>' inside attribute values)
@@ -779,6 +835,159 @@ pub fn damage(r: &mut Rng, doc: &[u8], op: usize, sys: u64) -> (Vec<u8>, &'stati
                 d.splice(i..i, b"<!DOCTYPE x [<!ENTITY e \"v\">]><?pi data?>".iter().cloned());
             }
         },
+        "alias_cycle" => {
+            // make CODING-REFs point at SIGNAL ids (chains and cycles of signal aliases) and let a
+            // SIGNAL-REF use one of them
+            let text = String::from_utf8_lossy(doc).into_owned();
+            let ids: Vec<String> = {
+                let mut v = vec![];
+                let mut from = 0;
+                while let Some(i) = text[from..].find("SIGNAL ") {
+                    let j = from + i;
+                    // only real SIGNAL elements (not SIGNAL-INSTANCE / SIGNAL-REF)
+                    let before = text[..j].chars().last();
+                    if matches!(before, Some('<') | Some(':')) {
+                        if let Some(k) = text[j..].find("ID=\"") {
+                            let st = j + k + 4;
+                            if let Some(e) = text[st..].find('"') {
+                                v.push(text[st..st + e].to_string());
+                            }
+                        }
+                    }
+                    from = j + 7;
+                }
+                v
+            };
+            let mut out = text.clone();
+            if ids.is_empty() {
+                // no SIGNAL in the document: add two that alias each other, referenced by nothing
+                if let Some(i) = out.find("</fx:ELEMENTS>").or_else(|| out.find("</ELEMENTS>")).or_else(|| out.find("</a:ELEMENTS>")) {
+                    at = i;
+                    out.insert_str(i, "<SIGNAL ID=\"SA\"><CODING-REF ID-REF=\"SB\"/></SIGNAL><SIGNAL ID=\"SB\"><CODING-REF ID-REF=\"SA\"/></SIGNAL>");
+                }
+            } else {
+                // rewrite every CODING-REF target: signal k -> signal k+1 (cyclically), or itself
+                let mut k = 0usize;
+                let mut res = String::new();
+                let mut rest = out.as_str();
+                let selfref = r.chance(1, 3);
+                while let Some(i) = rest.find("CODING-REF ") {
+                    let (head, tail) = rest.split_at(i);
+                    res.push_str(head);
+                    if let Some(q) = tail.find("ID-REF=\"") {
+                        let st = q + 8;
+                        if let Some(e) = tail[st..].find('"') {
+                            let target = if selfref { ids[k % ids.len()].clone() } else { ids[(k + 1) % ids.len()].clone() };
+                            res.push_str(&tail[..st]);
+                            res.push_str(&target);
+                            rest = &tail[st + e..];
+                            k += 1;
+                            continue;
+                        }
+                    }
+                    res.push_str(&tail[..11]);
+                    rest = &tail[11..];
+                }
+                res.push_str(rest);
+                out = res;
+                // and make sure some SIGNAL-REF points into the cycle
+                if let Some(i) = out.find("SIGNAL-REF ") {
+                    if let Some(q) = out[i..].find("ID-REF=\"") {
+                        let st = i + q + 8;
+                        if let Some(e) = out[st..].find('"') {
+                            at = st;
+                            out.replace_range(st..st + e, &ids[0]);
+                        }
+                    }
+                }
+            }
+            d = out.into_bytes();
+        }
+        "nest_element" => {
+            // move one complete element (start tag .. matching end tag) inside another element:
+            // right behind a start tag or right in front of an end tag elsewhere in the document
+            let starts: Vec<usize> = (0..ts.len())
+                .filter(|&i| {
+                    let inner = &doc[ts[i].0 + 1..ts[i].1 - 1];
+                    !(inner.first() == Some(&b'/') || inner.first() == Some(&b'?') || inner.first() == Some(&b'!') || inner.last() == Some(&b'/'))
+                })
+                .collect();
+            if starts.len() > 2 {
+                // prefer elements that carry an ID attribute
+                let with_id: Vec<usize> = starts.iter().cloned().filter(|&i| doc[ts[i].0..ts[i].1].windows(4).any(|w| w == b"ID=\"")).collect();
+                let pool = if !with_id.is_empty() && r.chance(3, 4) { &with_id } else { &starts };
+                let i = pool[(sys as usize) % pool.len()];
+                let nm = tag_name(doc, ts[i]);
+                let mut depth = 0;
+                let mut end = ts[i].1;
+                for t in &ts[i..] {
+                    let inn = &doc[t.0 + 1..t.1 - 1];
+                    if tag_name(doc, *t) == nm && inn.last() != Some(&b'/') {
+                        if inn.first() == Some(&b'/') {
+                            depth -= 1;
+                        } else {
+                            depth += 1;
+                        }
+                        if depth == 0 {
+                            end = t.1;
+                            break;
+                        }
+                    }
+                }
+                let seg = doc[ts[i].0..end].to_vec();
+                // destination: a tag boundary outside the moved segment
+                let dests: Vec<usize> = ts.iter().filter(|t| t.1 <= ts[i].0 || t.0 >= end).map(|t| if r.chance(1, 2) { t.1 } else { t.0 }).collect();
+                if !dests.is_empty() {
+                    let dest = dests[r.usize_below(dests.len())];
+                    at = dest.min(ts[i].0);
+                    let mut out = vec![];
+                    if dest <= ts[i].0 {
+                        out.extend_from_slice(&doc[..dest]);
+                        out.extend_from_slice(&seg);
+                        if r.chance(1, 2) {
+                            out.extend_from_slice(&doc[dest..ts[i].0]);
+                            out.extend_from_slice(&doc[end..]);
+                        } else {
+                            // copy instead of move: the element now occurs twice
+                            out.extend_from_slice(&doc[dest..]);
+                        }
+                    } else {
+                        out.extend_from_slice(&doc[..ts[i].0]);
+                        out.extend_from_slice(&doc[end..dest]);
+                        out.extend_from_slice(&seg);
+                        out.extend_from_slice(&doc[dest..]);
+                    }
+                    d = out;
+                }
+            }
+        }
+        "non_ascii_number" => {
+            // a number element whose text is not a number and ends in a multi-byte character,
+            // optionally with the file ending right there, optionally behind a byte-order mark
+            let text = String::from_utf8_lossy(doc).into_owned();
+            let key = *r.pick(&["SEQUENCE-NUMBER>", "BYTE-LENGTH>"]);
+            let occ: Vec<usize> = text.match_indices(key).map(|(i, _)| i + key.len()).filter(|&i| text.as_bytes().get(i).map_or(false, |c| c.is_ascii_digit())).collect();
+            if !occ.is_empty() {
+                let i = occ[(sys as usize) % occ.len()];
+                at = i;
+                let j = i + text[i..].bytes().position(|c| !c.is_ascii_digit()).unwrap_or(0);
+                let rep = *r.pick(&["4ü", "ü", "12€", "7𝄞", "é1", "1 é", "€€€"]);
+                d.splice(i..j, rep.bytes());
+                match r.below(3) {
+                    0 => d.truncate(i + rep.len()), // end of file directly behind the character
+                    1 => {
+                        let keep = r.usize_below(rep.len()) + 1;
+                        d.truncate(i + keep); // possibly in the middle of the character
+                    }
+                    _ => {}
+                }
+                if r.chance(1, 3) {
+                    let mut n = vec![0xEF, 0xBB, 0xBF];
+                    n.extend_from_slice(&d);
+                    d = n;
+                }
+            }
+        }
         _ => {
             // duplicate a region: unbalanced / repeated elements
             if d.len() > 8 {
